@@ -1,6 +1,9 @@
 mod c09sem;
 mod c10;
 mod c14;
+mod c15;
+mod c18;
+mod cairo_corpus;
 mod sierra;
 mod core;
 mod pipe;
@@ -9,7 +12,7 @@ mod text;
 use crate::core::{CheckDef, Tier};
 
 fn defs() -> Vec<&'static CheckDef> {
-    vec![&c10::C09, &c10::C10, &c14::C14]
+    vec![&c10::C09, &c10::C10, &c14::C14, &c15::C15, &c18::C18]
 }
 
 fn main() {
@@ -73,6 +76,11 @@ fn main() {
                 println!("diag {:?} {}..{}", d.kind, d.span.start.as_u32(), d.span.end.as_u32());
             }
             println!("lossless: {:?}", c10::lossless_violation(&db, root, &src));
+        }
+        Some("dump-examples-sierra") => {
+            for (_, p) in cairo_corpus::compiled_examples() {
+                println!("{p}");
+            }
         }
         Some("list") => {
             for d in defs {
